@@ -93,4 +93,15 @@ func init() {
 		Real: []string{"StoreRouter", "Cache", "RepairableCache", "FailoverGroup", "SwapStore"},
 		Stub: []string{"member stores (content + fault schedule, call log)", "scheduler"},
 	})
+	reg(&Prop{ID: "C09", Level: "exploration",
+		Quick:    Tier{Cases: 120000, PerJob: 7500, Seconds: 60},
+		Thorough: Tier{Cases: 6000000, PerJob: 100000, Seconds: 1500},
+		Rule: "one case = blob (empty, single short chunk, all-null, built from repeated chunks, generic with an inserted run of null chunks) x small chunk sizes x one of {IndexPos Seek/Read history of 1..60 operations with every whence, in/out-of-range and boundary offsets and read lengths 0..3*max; FUSE index-file node read requests (offset,size) in any order on 1..3 handles; the same on one handle shared by 2..3 concurrent tasks under the seeded scheduler} x store faults (k-th GetChunk fails or reports missing) in half of the cases; oracle = bytes.Reader-style model over the blob (returned bytes equal the blob range, short only at EOF or with an error, failed seek keeps the position, errors only when a fault was injected during the call, no panic); sub_evaluations = individual Seek/Read/FUSE requests; distinct = distinct (mode, sizes, faulty, chunk-count bucket, trace hash, outcome); every case is counted non-trivial (each is a multi-operation history)",
+		Assumptions: []string{
+			"no FUSE mount is possible in the sandbox: the node methods (Open/Read/Getattr) are driven in process, the kernel <-> go-fuse path is not exercised",
+			"FUSE offsets are limited to 0..size as the kernel does after Getattr",
+		},
+		Real: []string{"IndexPos", "NewIndexReadSeeker", "indexFile", "indexFileHandle", "NullChunk"},
+		Stub: []string{"chunk store (fault injecting)", "kernel/go-fuse bridge", "scheduler"},
+	})
 }
